@@ -5263,6 +5263,7 @@ impl<'a> Parser<'a> {
                 | TokenKind::Protected
                 | TokenKind::Readonly
                 | TokenKind::Declare
+                | TokenKind::Abstract
                 | TokenKind::Implements
                 | TokenKind::Any
                 | TokenKind::Unknown
@@ -5351,6 +5352,7 @@ impl<'a> Parser<'a> {
             TokenKind::Public => "public",
             TokenKind::Protected => "protected",
             TokenKind::Declare => "declare",
+            TokenKind::Abstract => "abstract",
             TokenKind::Implements => "implements",
             _ => "",
         })
